@@ -227,6 +227,68 @@ def layer_keywords():
         yield ("K", (kw, "plabel"), skeleton(pm=kw), 1e-8)
 
 
+MUTATIONS = ("insert-interval", "insert-point", "delete-interval", "add-tier", "remove-tier", "rename-tier", "replace-tier")
+
+
+def check_resave(case):
+    """save -> mutate the SAME live textgrid -> save again: the second file must be what a freshly built textgrid with the
+    same content writes (nothing about an earlier save may be remembered), and opening it must give the mutated content."""
+    si, mi = case
+    base = list(layer_structure(False))[si * 7 % 400][2]
+    tg = build(base)
+    d = scratch_dir()
+    fn, fn2 = os.path.join(d, "c01r.TextGrid"), os.path.join(d, "c01r2.TextGrid")
+    mut = MUTATIONS[mi]
+    viols = []
+    n = 0
+    for fmt in FMTS:
+        for blanks in (True, False):
+            tg = build(base)
+            call(tg.save, fn, fmt, blanks, None, None, 1e-8, "silence")
+            call(_tgmod.openTextgrid, fn, True, "silence")
+            names = list(tg.tierNames)
+            it = next((nm for nm in names if tg.getTier(nm).tierType == "IntervalTier"), None)
+            pt = next((nm for nm in names if tg.getTier(nm).tierType != "IntervalTier"), None)
+            st = "ok"
+            if mut == "insert-interval" and it:
+                st = call(tg.getTier(it).insertEntry, (0.25, 0.5, "new"), "replace", "silence")[0]
+            elif mut == "insert-point" and pt:
+                st = call(tg.getTier(pt).insertEntry, (0.75, "np"), "replace", "silence")[0]
+            elif mut == "delete-interval" and it and len(tg.getTier(it).entries):
+                st = call(tg.getTier(it).deleteEntry, tg.getTier(it).entries[0])[0]
+            elif mut == "add-tier":
+                st = call(tg.addTier, PT("extra", [(0.5, "e")], tg.minTimestamp, tg.maxTimestamp), 0, "silence")[0]
+            elif mut == "remove-tier" and len(names) > 1:
+                st = call(tg.removeTier, names[0])[0]
+            elif mut == "rename-tier":
+                st = call(tg.renameTier, names[-1], "renamed")[0]
+            elif mut == "replace-tier" and it:
+                st = call(tg.replaceTier, it, IT(it, [(0.0, 0.5, "r")], tg.minTimestamp, tg.maxTimestamp), "silence")[0]
+            else:
+                continue
+            if st != "ok":
+                continue
+            n += 3
+            s1 = call(tg.save, fn, fmt, blanks, None, None, 1e-8, "silence")
+            # a fresh textgrid with the same observable content
+            fresh = Textgrid(tg.minTimestamp, tg.maxTimestamp)
+            for t in tg.tiers:
+                fresh.addTier((IT if t.tierType == "IntervalTier" else PT)(t.name, [tuple(e) for e in t.entries], t.minTimestamp, t.maxTimestamp),
+                              reportingMode="silence")
+            fresh.minTimestamp, fresh.maxTimestamp = tg.minTimestamp, tg.maxTimestamp
+            s2 = call(fresh.save, fn2, fmt, blanks, None, None, 1e-8, "silence")
+            if s1[0] != s2[0]:
+                viols.append(Viol("resave-outcome", f"{mut}, {fmt}, blanks={blanks}: live save {s1[0]} {s1[1]!r}, fresh save {s2[0]} {s2[1]!r}  [{base}]"))
+                continue
+            if s1[0] == "ok":
+                with open(fn, encoding="utf-8") as a, open(fn2, encoding="utf-8") as b:
+                    ta, tb = a.read(), b.read()
+                if ta != tb:
+                    viols.append(Viol("stale-save", f"save, {mut}, save again ({fmt}, blanks={blanks}): the second file differs from what a fresh textgrid "
+                                                    f"with the same content writes: {_firstdiff(ta, tb)}  [{base}]"))
+    return n, "ok", (si % 7, mut), viols
+
+
 def _snippet(case):
     tag, meta, (lo, hi, tiers), minlen = case
     lines = ["from praatio import textgrid", f"tg = textgrid.Textgrid({lo!r}, {hi!r})"]
@@ -260,6 +322,9 @@ def parts(tier):
                   rule="all combinations of interval lists (0-3 entries incl. empty labels) x point lists x tier spans "
                        "(equal/narrower/wider than the file's) x file spans x tier order%s; non-trivial = distinct shape"
                        % ("" if quick else " x 1-3 tiers"), bounds={}, snippet=_snippet, chunk=8),
+        InputPart("resave-after-mutation", lambda: ((si, mi) for si in range(12 if quick else 40) for mi in range(len(MUTATIONS))), check_resave,
+                  rule="save, open, mutate the SAME live textgrid (%d mutations), save again x 4 formats x includeBlankSpaces: the second file equals "
+                       "what a freshly built textgrid with the same content writes" % len(MUTATIONS), bounds={}, chunk=2),
         InputPart("keywords", layer_keywords, check,
                   rule="the formats' own keywords (%d) as first/second interval label, point mark, interval-tier name, point-tier name; "
                        "failures of the content-sniffing text readers on these are matched against known_findings.json" % len(D.KEYWORDS),
